@@ -111,11 +111,39 @@ func (w *World) dirtyReturns(f *ssa.Function, di int, reach map[*ssa.Function]bo
 		}
 		return true
 	}
+	seReach := w.reachesFn("(*Decimal).setExponent")
+	// precZeroEdge: the edge from→to is taken only with <context>.Precision == 0
+	precZeroEdge := func(from, to *ssa.BasicBlock) bool {
+		iff, ok := from.Instrs[len(from.Instrs)-1].(*ssa.If)
+		if !ok || from.Succs[0] == from.Succs[1] {
+			return false
+		}
+		bo, ok := iff.Cond.(*ssa.BinOp)
+		if !ok || (bo.Op != token.EQL && bo.Op != token.NEQ) {
+			return false
+		}
+		for _, pair := range [][2]ssa.Value{{bo.X, bo.Y}, {bo.Y, bo.X}} {
+			ld, ok := pair[0].(*ssa.UnOp)
+			k, ok2 := pair[1].(*ssa.Const)
+			if !ok || !ok2 || k.Value == nil || ci(k) != 0 {
+				continue
+			}
+			fa, ok := ld.X.(*ssa.FieldAddr)
+			if !ok || w.exprOf(f, ld.X).Name != "Precision" {
+				continue
+			}
+			if _, isParam := fa.X.(*ssa.Parameter); !isParam {
+				continue
+			}
+			return (bo.Op == token.EQL && to == from.Succs[0]) || (bo.Op == token.NEQ && to == from.Succs[1])
+		}
+		return false
+	}
 	step := func(b *ssa.BasicBlock, st int, reason string, record func(rt *ssa.Return, reason string)) (int, string) {
 		for _, x := range b.Instrs {
 			switch y := x.(type) {
 			case *ssa.Return:
-				if st == 1 && record != nil && !w.isErrorReturn(y) {
+				if st >= 1 && record != nil && !w.isErrorReturn(y) {
 					record(y, reason)
 				}
 			case *ssa.Store:
@@ -133,7 +161,7 @@ func (w *World) dirtyReturns(f *ssa.Function, di int, reach map[*ssa.Function]bo
 				if exc["store "+fn] != "" {
 					continue
 				}
-				st, reason = 1, fmt.Sprintf("%s stored at %s", fn, w.instrPos(x))
+				st, reason = 2, fmt.Sprintf("%s stored at %s", fn, w.instrPos(x))
 			case *ssa.Call:
 				g := callee(y)
 				args := y.Common().Args
@@ -165,6 +193,12 @@ func (w *World) dirtyReturns(f *ssa.Function, di int, reach map[*ssa.Function]bo
 						st, reason = 0, ""
 						continue
 					}
+					// range-checked (a call reaching setExponent) but not rounded to the precision: clean
+					// only where the precision is known to be 0 (rounding disabled), see the edge rule below
+					if seReach[g] && isDest(args[destArgIndex(w, g)]) {
+						st, reason = 1, fmt.Sprintf("destination was range-checked by %s at %s but not rounded to the precision", cn, w.instrPos(x))
+						continue
+					}
 					// a helper all of whose delivered values are themselves clean (special-value prologues)
 					if gi := destArgIndex(w, g); isDecimalPtr(g.Params[gi].Type()) && isDest(args[gi]) && w.cleanWriter(g, gi, reach) {
 						st, reason = 0, ""
@@ -177,7 +211,7 @@ func (w *World) dirtyReturns(f *ssa.Function, di int, reach map[*ssa.Function]bo
 						if w.copySourceFits(f, y) {
 							st, reason = 0, ""
 						} else {
-							st, reason = 1, fmt.Sprintf("value copied by %s at %s (an operand or local with possibly more than Precision digits)", cn, w.instrPos(x))
+							st, reason = 2, fmt.Sprintf("value copied by %s at %s (an operand or local with possibly more than Precision digits)", cn, w.instrPos(x))
 						}
 						continue
 					case "(*Decimal).SetInt64", "(*Decimal).SetFinite", "(*Decimal).setCoefficient":
@@ -195,9 +229,9 @@ func (w *World) dirtyReturns(f *ssa.Function, di int, reach map[*ssa.Function]bo
 					if exc[cn] != "" {
 						continue
 					}
-					st, reason = 1, fmt.Sprintf("destination written by %s at %s", cn, w.instrPos(x))
+					st, reason = 2, fmt.Sprintf("destination written by %s at %s", cn, w.instrPos(x))
 				} else if strings.HasPrefix(cn, "(*math/big.Int).") {
-					st, reason = 1, fmt.Sprintf("destination coefficient written by %s at %s", cn, w.instrPos(x))
+					st, reason = 2, fmt.Sprintf("destination coefficient written by %s at %s", cn, w.instrPos(x))
 				}
 			}
 		}
@@ -212,8 +246,12 @@ func (w *World) dirtyReturns(f *ssa.Function, di int, reach map[*ssa.Function]bo
 			}
 			out, rs := step(b, in[b.Index], why[b.Index], nil)
 			for _, s := range b.Succs {
-				if out > in[s.Index] {
-					in[s.Index] = out
+				o := out
+				if o == 1 && precZeroEdge(b, s) {
+					o = 0 // Precision 0 disables rounding: the range check is all there is to apply
+				}
+				if o > in[s.Index] {
+					in[s.Index] = o
 					why[s.Index] = rs
 					changed = true
 				}
